@@ -44,6 +44,8 @@ Record tcase := {
      (sink entities = plain copy's entities, change-log length of the sink, of the plain copy's sink,
       changes added by a second run from scratch, changes added by a further full-sync run); None = not a copy case *)
   o_copy : option (bool * Z * Z * Z * Z);
+  (* copy mode through the context-supporting HTTP transform: how many source entities carry a nested entity (0 otherwise) *)
+  c_nested : Z;
   (* value-normalisation case (entity.go toJsonValue called directly): a Go value, its image after a pass through JavaScript,
      and what toJsonValue returned for each; None = not such a case *)
   o_json : option (gval Fz * gval Fz * jval Fz * jval Fz)
@@ -67,23 +69,26 @@ Definition nonempty (l : list Z) : bool := match l with [] => false | _ => true 
     (flattened), the batches the sink got, the token *)
 (** copy mode: the transform preserves contents, so the sink must hold what the model says reached it, and a re-run
     of the same entities adds no change (DatasetSink stores only what differs; Model/Store identical_iff) *)
-Definition agree_copy (c : tcase) (oc : N) (outs : list (list Z)) (cp : bool * Z * Z * Z * Z) : bool :=
+Definition agree_copy (c : tcase) (hn : bool) (oc : N) (outs : list (list Z)) (cp : bool * Z * Z * Z * Z) : bool :=
   let '(eq, dch, rch, re, fu) := cp in
+  (* [hn] (pinned tree, F10c): a nested entity that came back from the context-supporting HTTP transform is a struct of another type
+     and never compares equal to the stored one, so every such entity is stored again by a re-run *)
+  let again := if hn then c_nested c else 0 in
   let src := zrange 0 (Z.to_nat (c_n c)) in
   N.eqb oc (o_outcome c)
   && (if N.eqb oc 0 then
         Bool.eqb eq (zlist_eqb (concat outs) src)
         && Z.eqb rch (c_n c) && Z.eqb dch (Z.of_nat (length (concat outs)))
-        && Z.eqb re 0 && Z.eqb fu 0
+        && Z.eqb re again && Z.eqb fu again
       else true).
 
-Definition agree (m : part_mode) (c : tcase) : bool :=
+Definition agree (m : part_mode) (hn : bool) (c : tcase) : bool :=
   let '(oc, ins, outs, tok, rerun) := predict m c in
   match o_json c with
   | Some (v, v', o, o') => jval_eqb (to_json i2fz v) o && jval_eqb (to_json i2fz v') o'
   | None =>
   match o_copy c with
-  | Some cp => agree_copy c oc outs cp
+  | Some cp => agree_copy c hn oc outs cp
   | None =>
   N.eqb oc (o_outcome c)
   && (if c_wrap c then zlist_eqb (concat ins) (concat (o_seen c)) else true)
@@ -118,11 +123,13 @@ Definition spec_ok (c : tcase) : bool :=
   && (if c_full c then true else Z.eqb (o_rerun c) 0)
   end end.
 
-(** [mismatches under PRound; mismatches under PCeilClip; spec failures on I;
+(** [mismatches under (PRound, nested pinned); (PRound, nested repaired); (PCeilClip, pinned); (PCeilClip, repaired); spec failures on I;
      chunk-boundary drift under PRound; under PCeilClip] *)
 Definition evaluate (cs : list tcase) : list (list N) :=
-  [ indices_where (fun c => negb (agree PRound c)) cs;
-    indices_where (fun c => negb (agree PCeilClip c)) cs;
+  [ indices_where (fun c => negb (agree PRound true c)) cs;
+    indices_where (fun c => negb (agree PRound false c)) cs;
+    indices_where (fun c => negb (agree PCeilClip true c)) cs;
+    indices_where (fun c => negb (agree PCeilClip false c)) cs;
     indices_where (fun c => negb (spec_ok c)) cs;
     indices_where (fun c => negb (agree_chunks PRound c)) cs;
     indices_where (fun c => negb (agree_chunks PCeilClip c)) cs ].
